@@ -1063,6 +1063,13 @@ func accessibleFrom(info *types.Info, node ast.Node, dst *types.Package) error {
 		if unexportError != nil {
 			return false
 		}
+		if lit, ok := node.(*ast.CompositeLit); ok {
+			if f := implicitUnexportedField(info, lit, wantPkg); f != nil {
+				unexportError = fmt.Errorf("assigns unexported field %s without naming it", f.Name())
+				return false
+			}
+			return true
+		}
 		ident, ok := node.(*ast.Ident)
 		if !ok {
 			return true
@@ -1103,6 +1110,36 @@ func accessibleFrom(info *types.Info, node ast.Node, dst *types.Package) error {
 		return true
 	})
 	return unexportError
+}
+
+// implicitUnexportedField returns an unexported field of another package than
+// wantPkg that the struct literal lit assigns by position, if there is one.
+// Such a literal compiles only in the package that declares the field.
+func implicitUnexportedField(info *types.Info, lit *ast.CompositeLit, wantPkg string) *types.Var {
+	if len(lit.Elts) == 0 {
+		return nil
+	}
+	if _, keyed := lit.Elts[0].(*ast.KeyValueExpr); keyed {
+		return nil
+	}
+	t := info.TypeOf(lit)
+	if t == nil {
+		return nil
+	}
+	if p, ok := t.Underlying().(*types.Pointer); ok {
+		// {...} standing for &T{...} as an element of a []*T or map[K]*T.
+		t = p.Elem()
+	}
+	st, ok := t.Underlying().(*types.Struct)
+	if !ok {
+		return nil
+	}
+	for i := 0; i < st.NumFields(); i++ {
+		if f := st.Field(i); !f.Exported() && f.Pkg() != nil && f.Pkg().Path() != wantPkg {
+			return f
+		}
+	}
+	return nil
 }
 
 // importableFrom reports whether the package with the given import path may
